@@ -7,6 +7,7 @@ CONSTANTS
   MaxSteps = 1000
   Variant = "ok"
   WithSv = TRUE
+  Stamps = "now"
   SvMode = "asWritten"
 POSTCONDITION TraceDone
 CHECK_DEADLOCK FALSE
